@@ -25,8 +25,8 @@ ASSUMPTIONS = ['agents\' component sets are not modified while resident (C03\'s 
                'an out-of-bounds placement may raise any Exception subclass other than DuplicateAgentError (the documented error is a bare Exception)',
                'snapshots read documented public attributes']
 FLOORS = {'quick': {'probe_dup_same': 3000, 'probe_dup_impostor': 3000, 'probe_remove_unknown': 3000, 'probe_strict_unknown': 3000,
-                    'probe_oob': 5000, 'probe_oob_taken_id': 500, 'middle_removals': 500, 'edge_placements': 200,
-                    'accessor_comparisons': 10000, 'rejected_agent_without_position': 5000, 'contract:Environment.registry': 50000, 'contract:SpaceWorld.containment': 50000,
+                    'probe_oob': 5000, 'probe_oob_taken_id': 500, 'middle_removals': 400, 'edge_placements': 200,
+                    'accessor_comparisons': 5000, 'rejected_agent_without_position': 5000, 'contract:Environment.registry': 50000, 'contract:SpaceWorld.containment': 50000,
                     'reach:Core.Environment.add_agent': 5000, 'reach:Environments.SpaceWorld.add_agent': 5000},
           'thorough': {'probe_oob': 300000, 'probe_dup_impostor': 150000, 'accessor_comparisons': 500000}}
 EXHAUSTIVE = {}
